@@ -14,6 +14,12 @@ Kernels (in file order)
                      `t.parse`) / gen_QFunction_parse_while1 / gen_QDict_parse_while1 / gen_QList_parse_while1
   parse              the statement parser              -> gen_parse_stmt
   create_namespace, get_return                         -> gen_create_namespace, gen_get_return
+  _verify_variable_is_type, q2_typecheck, q2_function  (aw_query/functions.py) -> gen_verify_variable_is_type,
+                     gen_typecheck (the index-driven loop of the wrapper g over sig.parameters and args),
+                     gen_q2_function_g (which of datastore / namespace the registered wrapper passes on); the
+                     decorator skeletons around them (`sig = signature(f)`, `def g(*args, **kwargs)`,
+                     `return f(*args, **kwargs)`, `functions[fname] = g`) are matched as text
+  interpreter_text   the six `interpret` methods, interpret() and query() are compared as TEXT (not translated)
   query_footer       End of the Section
 
 Idioms (what the translator trusts; each is visible in the generated text)
@@ -49,6 +55,11 @@ Idioms (what the translator trusts; each is visible in the generated text)
                 gets fuel'.  The statement parser starts with 2 * len(line) (ENTRY_FUEL), the budget for which
                 Proofs/QueryTotal.v proves the model never reports OutOfFuel.
   order checks  qtypes is emitted as a list (gen_qtypes); dict literals keep their key order.
+  parameters    inspect.Parameter objects are the `pkind` classes of the registry reader (harness/c17_impl.py):
+                `p.annotation in [list, str, int, float]` = pk_annotation_in p [PList; PStr; PInt; PFloat],
+                `p.default == p.empty` = pk_no_default p (every annotation test must be conjoined with it),
+                `TNamespace not in (sig.parameters[p].annotation for p in sig.parameters)` = negb (existsb
+                pk_is_namespace ..); argument tuples are lists of `arg`; args[i] = list_index (Err IndexError).
 """
 import ast
 import os
@@ -58,17 +69,21 @@ from py2v import Fail, is_skippable
 SRC = "aw_query/query2.py"
 CLASSES = {"QString": "TString", "QInteger": "TInteger", "QFunction": "TFunction",
            "QDict": "TDict", "QList": "TList", "QVariable": "TVariable"}
-EXC = {"QueryParseException": "ParseError", "QueryInterpretException": "InterpretError"}
+EXC = {"QueryParseException": "ParseError", "QueryInterpretException": "InterpretError",
+       "QueryFunctionException": "FunctionError"}
+FUNCTIONS_SRC = "aw_query/functions.py"
+PTYPES = {"list": "PList", "str": "PStr", "int": "PInt", "float": "PFloat"}
 RESERVED = {"fuel", "it", "max_digits", "bind", "Ok", "Err", "Some", "None", "S", "O", "length", "strip", "drop",
             "take", "slice", "split", "true", "false", "negb", "str", "nat", "Z", "Query", "qtype", "qtoken", "res",
             "t_", "r_", "fuel'", "is_empty", "is_digit", "is_alpha", "first_char", "last_char", "dict_set", "dict_mem"}
 OPT = {"optchar": "char", "optstr": "str", "optqtype": "qtype"}
 OPT_OF = {v: k for k, v in OPT.items()}
-ELT = {"str": "char", "list:qtype": "qtype", "list:str": "str", "list:qtoken": "qtoken"}
+ELT = {"str": "char", "list:qtype": "qtype", "list:str": "str", "list:qtoken": "qtoken", "list:pkind": "pkind"}
 GT = {"str": "str", "char": "Z", "optchar": "option Z", "nat": "nat", "Z": "Z", "bool": "bool",
       "optstr": "option str", "qtype": "qtype", "optqtype": "option qtype", "qtoken": "qtoken",
       "value": "Query.value", "ns": "Query.namespace", "list:qtoken": "list qtoken", "dict:qtoken": "list (str * qtoken)",
-      "list:str": "list str", "list:qtype": "list qtype"}
+      "list:str": "list str", "list:qtype": "list qtype", "pkind": "pkind", "list:pkind": "list pkind",
+      "arg": "arg", "list:arg": "list arg", "ptype": "ptype", "unit": "unit"}
 ENTRY_FUEL = {"parse": "(2 * length line)%nat"}
 
 PRELUDE = """From AwVerif Require Import Model.PyStr Model.Query.
@@ -94,6 +109,22 @@ Definition dict_lookup {V} (d : list (str * V)) (k : str) : res V :=
 (* QString(..).value *)
 Definition qstring_value (t : qtoken) : res str :=
   match t with QString s => Ok s | _ => Err AttributeError end.
+(* l[i] for 0 <= i *)
+Definition list_index {A} (l : list A) (i : nat) : res A :=
+  match nth_error l i with Some x => Ok x | None => Err IndexError end.
+(* inspect.Parameter as the registry reader (harness/c17_impl.py) classifies it: PTyped t = annotation t among
+   list/str/int/float and no default; PDefault = has a default (its annotation is not recorded: the translator
+   insists that every annotation test is conjoined with the default test, so the value chosen here for PDefault
+   never matters); every other kind has no default and an annotation outside the four checked types *)
+Definition ptype_eqb (a b : ptype) : bool :=
+  match a, b with PList, PList | PStr, PStr | PInt, PInt | PFloat, PFloat => true | _, _ => false end.
+Definition pk_annotation_in (k : pkind) (l : list ptype) : bool :=
+  match k with PTyped t => existsb (ptype_eqb t) l | _ => false end.
+(* PNamespace / PDatastore = annotated with TNamespace / Datastore *)
+Definition pk_is_namespace (k : pkind) : bool := match k with PNamespace => true | _ => false end.
+Definition pk_is_datastore (k : pkind) : bool := match k with PDatastore => true | _ => false end.
+Definition pk_no_default (k : pkind) : bool := match k with PDefault => false | _ => true end.
+Definition pk_annotation (k : pkind) : res ptype := match k with PTyped t => Ok t | _ => Err OtherError end.
 
 Section Gen.
 Variable max_digits : nat.   (* sys.get_int_max_str_digits() *)
@@ -178,6 +209,8 @@ def coerce(v, to, env=None):
             return "None"
         if to == "value":
             return "VNone"
+        if to == "unit":
+            return "tt"
     if ty == "intlit":
         if to == "nat" and v.lit >= 0:
             return f"{v.lit}%nat"
@@ -278,11 +311,31 @@ class _AnnToAssign(ast.NodeTransformer):
 
 
 class Module:
-    def __init__(self, repo):
-        self.tree = ast.parse(open(os.path.join(repo, SRC)).read())
+    def __init__(self, repo, path=SRC):
+        self.tree = ast.parse(open(os.path.join(repo, path)).read())
         for n in ast.walk(self.tree):
             if isinstance(n, ast.FunctionDef):
                 n.body = [_AnnToAssign().visit(x) for x in n.body]
+        if path == SRC:
+            # nothing at module level may rebind a class, a method or a function behind the translator's back
+            for n in self.tree.body:
+                ok = isinstance(n, (ast.Import, ast.ImportFrom, ast.ClassDef, ast.FunctionDef)) or is_skippable(n) \
+                    or (isinstance(n, ast.Assign) and len(n.targets) == 1 and isinstance(n.targets[0], ast.Name)
+                        and n.targets[0].id in ("logger", "qtypes")) \
+                    or (isinstance(n, ast.AnnAssign) and isinstance(n.target, ast.Name) and n.target.id == "qtypes")
+                if not ok:
+                    raise Fail("query2.py: unexpected module-level statement: " + ast.unparse(n)[:60])
+            names = [n.name for n in self.tree.body if isinstance(n, (ast.ClassDef, ast.FunctionDef))]
+            if len(names) != len(set(names)):
+                raise Fail("query2.py: a class or function is defined twice")
+            for c in self.tree.body:
+                if isinstance(c, ast.ClassDef):
+                    ms = [m.name for m in c.body if isinstance(m, ast.FunctionDef)]
+                    if len(ms) != len(set(ms)) or c.decorator_list or c.keywords \
+                            or any(not (isinstance(m, ast.FunctionDef) or is_skippable(m)) for m in c.body):
+                        raise Fail(f"query2.py: class {c.name} has an unexpected shape")
+                    if c.name in CLASSES and [ast.unparse(b) for b in c.bases] != ["QToken"]:
+                        raise Fail(f"query2.py: bases of {c.name} changed")
         self.classes = {n.name: n for n in self.tree.body if isinstance(n, ast.ClassDef)}
         self.functions = {n.name: n for n in self.tree.body if isinstance(n, ast.FunctionDef)}
 
@@ -340,9 +393,9 @@ class Fn:
         names = [x.arg for x in a.args]
         if len(names) != len(params):
             raise Fail(f"{prefix}: expected {len(params)} parameters, found {names}")
-        deco = [d.id for d in fn.decorator_list if isinstance(d, ast.Name)]
-        if static and "staticmethod" not in deco:
-            raise Fail(f"{prefix}: not a staticmethod")
+        deco = [ast.unparse(d) for d in fn.decorator_list]
+        if deco != (["staticmethod"] if static else []):
+            raise Fail(f"{prefix}: decorators changed ({deco})")
         self.params = list(zip(names, params))
         for n in set(names) | set(assigned_names(fn.body)):
             if n in RESERVED or n.startswith("gen_") or n.startswith("tmp_"):
@@ -526,6 +579,14 @@ class Fn:
             if type(c) is str:
                 return V(strlit(c), "strlit", lit=c)
             raise Fail("unsupported constant")
+        if isinstance(e, ast.Tuple) and e.elts and isinstance(e.elts[-1], ast.Starred) \
+                and not any(isinstance(x, ast.Starred) for x in e.elts[:-1]):
+            # (a, b, *rest): a tuple of call arguments, kept as a list
+            heads = [self.ex(x, env, binds) for x in e.elts[:-1]]
+            tail = self.ex(e.elts[-1].value, env, binds)
+            if tail.ty != "list:arg" or any(h.ty != "arg" for h in heads):
+                raise Fail("unsupported starred tuple")
+            return V("(" + " :: ".join([h.text for h in heads] + [tail.text]) + ")", "list:arg")
         if isinstance(e, ast.Tuple):
             parts = [self.ex(x, env, binds) for x in e.elts]
             return V(None, ("tuple",) + tuple(p.ty for p in parts), parts=parts)
@@ -582,6 +643,22 @@ class Fn:
         if isinstance(e, ast.Compare):
             if len(e.ops) != 1:
                 raise Fail("chained comparison")
+            l, r = e.left, e.comparators[0]
+            if isinstance(e.ops[0], (ast.In, ast.NotIn)) and isinstance(l, ast.Name) \
+                    and l.id in ("TNamespace", "Datastore") and l.id not in env.types \
+                    and ast.unparse(r) == "(sig.parameters[p].annotation for p in sig.parameters)" \
+                    and env.types.get("sig_parameters") == "list:pkind":
+                t = f"(existsb {'pk_is_namespace' if l.id == 'TNamespace' else 'pk_is_datastore'} sig_parameters)"
+                return V(f"(negb {t})" if isinstance(e.ops[0], ast.NotIn) else t, "bool")
+            if isinstance(l, ast.Attribute) and isinstance(l.value, ast.Name) and env.types.get(l.value.id) == "pkind":
+                k = l.value.id
+                if l.attr == "annotation" and isinstance(e.ops[0], ast.In) and isinstance(r, ast.List) \
+                        and all(isinstance(x, ast.Name) and x.id in PTYPES and x.id not in env.types for x in r.elts):
+                    return V(f"(pk_annotation_in {k} [" + "; ".join(PTYPES[x.id] for x in r.elts) + "])", "bool")
+                if l.attr == "default" and isinstance(e.ops[0], ast.Eq) and isinstance(r, ast.Attribute) \
+                        and r.attr == "empty" and isinstance(r.value, ast.Name) and r.value.id == k:
+                    return V(f"(pk_no_default {k})", "bool")
+                raise Fail("unsupported test on an inspect.Parameter")
             return self.compare(e.ops[0], self.ex(e.left, env, binds), self.ex(e.comparators[0], env, binds), env)
         if isinstance(e, ast.Subscript):
             return self.subscript(e, env, binds)
@@ -589,6 +666,8 @@ class Fn:
             v = self.ex(e.value, env, binds)
             if e.attr == "value" and v.ty == "qtoken" and v.cls == "QString":
                 return self.bindv(env, binds, f"qstring_value {v.text}", "str")
+            if e.attr == "annotation" and v.ty == "pkind":
+                return self.bindv(env, binds, f"pk_annotation {v.text}", "ptype")
             raise Fail(f"unsupported attribute .{e.attr} of a {v.ty}")
         if isinstance(e, ast.Call):
             return self.call(e, env, binds)
@@ -634,6 +713,11 @@ class Fn:
     def subscript(self, e, env, binds):
         v = self.ex(e.value, env, binds)
         sl = e.slice
+        if isinstance(sl, ast.Slice) and v.ty == "list:arg":
+            lo = self.ex(sl.lower, env, binds) if sl.lower is not None else None
+            if sl.step is None and sl.upper is None and lo is not None and lo.ty == "intlit" and lo.lit >= 0:
+                return V(f"(skipn {lo.lit} {v.text})", "list:arg")
+            raise Fail("unsupported slice of an argument tuple")
         if isinstance(sl, ast.Slice):
             if sl.step is not None or v.ty != "str":
                 raise Fail("unsupported slice")
@@ -654,6 +738,8 @@ class Fn:
             return self.bindv(env, binds, f"first_char {v.text}", "char")
         if v.ty == "str" and i.ty == "intlit" and i.lit == -1:
             return self.bindv(env, binds, f"last_char {v.text}", "char")
+        if v.ty == "list:arg" and i.ty in ("nat", "intlit"):
+            return self.bindv(env, binds, f"list_index {v.text} {coerce(i, 'nat')}", "arg")
         if v.ty == "ns" and i.ty in ("str", "strlit"):
             return self.bindv(env, binds, f"dict_lookup {v.text} {coerce(i, 'str')}", "value")
         raise Fail(f"unsupported subscript of a {v.ty} by a {i.ty}")
@@ -675,6 +761,10 @@ class Fn:
                 if len(e.args) == 2 and isinstance(e.args[1], ast.Name) and e.args[1].id == "str" \
                         and self.ex(e.args[0], env, binds).ty == "str":
                     return V("true", "bool")      # the static type of the operand is str
+                if len(e.args) == 2:
+                    a, b = self.ex(e.args[0], env, binds), self.ex(e.args[1], env, binds)
+                    if a.ty == "arg" and b.ty == "ptype":
+                        return V(f"(isinstance {a.text} {b.text})", "bool")
                 raise Fail("unsupported isinstance test")
             args = [self.ex(a, env, binds) for a in e.args]
             if f.id == "len" and len(args) == 1 and (args[0].ty == "str" or str(args[0].ty).startswith(("list:", "dict:"))):
@@ -684,6 +774,8 @@ class Fn:
             if f.id == "_parse_token" and len(args) == 2 and args[0].ty == "str" and args[1].ty == "ns":
                 return self.bindv(env, binds, f"gen_parse_token {args[0].text} {args[1].text}",
                                   ("tuple", ("tuple", "optqtype", "str"), "str"))
+            if f.id == "_verify_variable_is_type" and len(args) == 2 and args[0].ty == "arg" and args[1].ty == "ptype":
+                return self.bindv(env, binds, f"gen_verify_variable_is_type {args[0].text} {args[1].text}", "unit")
             if f.id in CLASSES:
                 want = {"QInteger": ["Z"], "QVariable": ["str", "value"], "QString": ["str"],
                         "QFunction": ["str", "list:qtoken"], "QDict": ["dict:qtoken"], "QList": ["list:qtoken"]}[f.id]
@@ -882,6 +974,14 @@ class Fn:
             elt = env.types[name][5:]
             return self.wrap(binds, f"let {name} := {name} ++ [{coerce(v, elt, env)}] in\n  "
                              + self.block(rest, env, K, later))
+        if isinstance(s, ast.Expr) and isinstance(s.value, ast.Call) and isinstance(s.value.func, ast.Name) \
+                and s.value.func.id == "_verify_variable_is_type":
+            binds = []
+            v = self.ex(s.value, env, binds)
+            if not binds or binds[-1][0] != v.text:
+                raise Fail("procedure call")
+            binds[-1] = ("_", binds[-1][1])
+            return self.wrap(binds, self.block(rest, env, K, later))
         if isinstance(s, ast.If):
             return self.do_if(s, rest, env, K, later)
         if isinstance(s, ast.For):
@@ -936,9 +1036,13 @@ class Fn:
 
     @staticmethod
     def tuple_of(names):
+        if not names:
+            return "tt"      # a loop that only raises or passes
         return names[0] if len(names) == 1 else "(" + ", ".join(names) + ")"
 
     def tuple_type(self, names, env):
+        if not names:
+            return "unit"
         if len(names) == 1:
             return "(" + gt(env.types[names[0]]) + ")"
         return "(" + " * ".join(gt(env.types[n]) for n in names) + ")"
@@ -978,8 +1082,6 @@ class Fn:
         target_is_state = tname in env.types
         state = [v for v in self.order if (v in body_assigned or (v == tname and target_is_state)) and v in env.types]
         live = self.live_after(state, rest, later)
-        if not live:
-            raise Fail(f"{self.prefix}: a loop whose results are never read")
         reads = used_names(s.body)
         free = [v for v in self.order if v in reads and v in env.types and v not in state and v not in (tname, idx)]
         self.nloop += 1
@@ -1020,7 +1122,7 @@ class Fn:
             if v not in live:
                 del env2.types[v]
         args = (["0%nat"] if idx else []) + state + free + [itv.text]
-        pat = live[0] if len(live) == 1 else "'" + live_t
+        pat = "_" if not live else live[0] if len(live) == 1 else "'" + live_t
         return self.wrap(binds, f"bind ({name} " + " ".join(args) + f") (fun {pat} =>\n  "
                          + self.block(rest, env2, K, later) + ")")
 
@@ -1085,6 +1187,8 @@ class Fn:
         env = env or Env(dict(self.params))
 
         def fall(_e):
+            if self.ret == "unit":
+                return "Ok tt"
             raise Fail(f"{self.prefix}: a path falls off the end without return")
         return self.block(self.body, env, fall, set())
 
@@ -1092,23 +1196,28 @@ class Fn:
         text = self.body_text()
         params = " ".join(f"({n} : {gt(t)})" for n, t in self.params)
         return "".join(t + "\n" for t in self.top) + \
-            f"Definition {self.prefix} {params} : res {gt(self.ret)} :=\n  {text}.\n"
+            f"Definition {self.prefix} {params} : res ({gt(self.ret)}) :=\n  {text}.\n"
 
 
 # ---------------------------------------------------------------------------
 # kernels
 
 
+def _clean(msg):
+    """the message ends up inside a Coq comment of the generated file"""
+    return str(msg).replace("(*", "( *").replace("*)", "* )").replace("\n", "\\n")[:600]
+
+
 def _guard(f):
     def g(repo):
         try:
             return f(repo)
-        except Fail:
-            raise
+        except Fail as ex:
+            raise Fail(_clean(ex))
         except RecursionError as ex:
-            raise Fail(f"RecursionError: {ex}")
+            raise Fail(_clean(f"RecursionError: {ex}"))
         except Exception as ex:  # noqa: BLE001 -- fail closed, never crash the shared translator run
-            raise Fail(f"{type(ex).__name__}: {ex}")
+            raise Fail(_clean(f"{type(ex).__name__}: {ex}"))
     return g
 
 
@@ -1204,6 +1313,163 @@ def tr_get_return(repo):
 
 
 @_guard
+def tr_verify_type(repo):
+    mod = Module(repo, FUNCTIONS_SRC)
+    fn = Fn(mod, mod.function("_verify_variable_is_type"), "gen_verify_variable_is_type", ["arg", "ptype"], "unit",
+            static=False)
+    return fn.definition()
+
+
+@_guard
+def tr_typecheck(repo):
+    """q2_typecheck: `sig = signature(f)`, the wrapper g(*args, **kwargs) whose loop walks sig.parameters with an
+    index, and `return f(*args, **kwargs)`.  The loop is re-assembled as a function of (sig.parameters' values, args)
+    and sent through the generic translator."""
+    mod = Module(repo, FUNCTIONS_SRC)
+    outer = mod.function("q2_typecheck")
+    body = [x for x in outer.body if not is_skippable(x)]
+    if len(body) != 3 or ast.unparse(body[0]) != "sig = signature(f)" or not isinstance(body[1], ast.FunctionDef) \
+            or ast.unparse(body[2]) != "return g" or body[1].name != "g":
+        raise Fail("q2_typecheck is no longer `sig = signature(f); def g(..); return g`")
+    g = body[1]
+    a = g.args
+    if a.args or a.posonlyargs or a.kwonlyargs or not a.vararg or a.vararg.arg != "args" or not a.kwarg:
+        raise Fail("q2_typecheck.g is no longer g(*args, **kwargs)")
+    gb = [x for x in g.body if not is_skippable(x)]
+    if len(gb) != 2 or not isinstance(gb[0], ast.For) or ast.unparse(gb[1]) != f"return f(*args, **{a.kwarg.arg})":
+        raise Fail("q2_typecheck.g is no longer `for ..: ..; return f(*args, **kwargs)`")
+    loop = gb[0]
+    if ast.unparse(loop.target) != "(i, p)" or ast.unparse(loop.iter) != "enumerate(sig.parameters)" or loop.orelse:
+        raise Fail("q2_typecheck: loop header is not `for i, p in enumerate(sig.parameters)`")
+    lb = [x for x in loop.body if not is_skippable(x)]
+    if not lb or ast.unparse(lb[0]) != "param = sig.parameters[p]":
+        raise Fail("q2_typecheck: the loop does not start with `param = sig.parameters[p]`")
+    for n in ast.walk(ast.Module(body=lb[1:], type_ignores=[])):
+        if isinstance(n, ast.Name) and n.id in ("p", "sig", "f"):
+            raise Fail(f"q2_typecheck: the loop body refers to {n.id}")
+    # every annotation test must be conjoined with the default test
+    guarded = set()
+    for n in ast.walk(ast.Module(body=lb[1:], type_ignores=[])):
+        if isinstance(n, ast.BoolOp) and isinstance(n.op, ast.And):
+            srcs = [ast.unparse(v) for v in n.values]
+            if "param.default == param.empty" in srcs:
+                guarded.update(id(v) for v in n.values)
+    for n in ast.walk(ast.Module(body=lb[1:], type_ignores=[])):
+        if isinstance(n, ast.Compare) and isinstance(n.left, ast.Attribute) and n.left.attr == "annotation" \
+                and id(n) not in guarded:
+            raise Fail("q2_typecheck: an annotation test that is not conjoined with `param.default == param.empty`")
+    syn = ast.parse("def gen(sig_parameters, args):\n    for i, param in enumerate(sig_parameters):\n        pass\n"
+                    "    return None\n").body[0]
+    syn.body[0].body = lb[1:]
+    fn = Fn(mod, syn, "gen_typecheck", ["list:pkind", "list:arg"], "unit", static=False)
+    return fn.definition()
+
+
+@_guard
+def tr_q2_function(repo):
+    """q2_function: the wrapper g(datastore, namespace, *args, **kwargs) registered under the function's name:
+    which of datastore / namespace it passes on.  `return f(*args, **kwargs)` becomes `return args`."""
+    mod = Module(repo, FUNCTIONS_SRC)
+    outer = mod.function("q2_function")
+    hs = [x for x in outer.body if isinstance(x, ast.FunctionDef)]
+    if len(hs) != 1 or hs[0].name != "h" or ast.unparse(outer.body[-1]) != "return h":
+        raise Fail("q2_function is no longer `def h(f): ..; return h`")
+    h = hs[0]
+    hb = [x for x in h.body if not is_skippable(x)]
+    if not hb or ast.unparse(hb[0]) != "sig = signature(f)":
+        raise Fail("q2_function.h does not start with `sig = signature(f)`")
+    gs = [x for x in hb if isinstance(x, ast.FunctionDef)]
+    if len(gs) != 1 or gs[0].name != "g":
+        raise Fail("q2_function.h: wrapper g not found")
+    g = gs[0]
+    tail = [ast.unparse(x) for x in hb[hb.index(g) + 1:]]
+    if tail != ["fname = f.__name__", "if fname[:3] == 'q2_':\n    fname = fname[3:]", "functions[fname] = g", "return g"]:
+        raise Fail("q2_function.h: the registration `functions[fname] = g` changed")
+    a = g.args
+    if [x.arg for x in a.args] != ["datastore", "namespace"] or a.posonlyargs or a.kwonlyargs or a.defaults \
+            or not a.vararg or a.vararg.arg != "args" or not a.kwarg:
+        raise Fail("q2_function.g is no longer g(datastore, namespace, *args, **kwargs)")
+    gb = [x for x in g.body if not is_skippable(x)]
+    if not gb or ast.unparse(gb[-1]) != f"return f(*args, **{a.kwarg.arg})":
+        raise Fail("q2_function.g does not end with `return f(*args, **kwargs)`")
+    for n in ast.walk(ast.Module(body=gb[:-1], type_ignores=[])):
+        if isinstance(n, ast.Name) and n.id in ("f", a.kwarg.arg):
+            raise Fail(f"q2_function.g refers to {n.id} before the call")
+    syn = ast.parse("def gen(sig_parameters, datastore, namespace, args):\n    return args\n").body[0]
+    syn.body = gb[:-1] + syn.body
+    fn = Fn(mod, syn, "gen_q2_function_g", ["list:pkind", "arg", "arg", "list:arg"], "list:arg", static=False)
+    return fn.definition()
+
+
+class _Normalise(ast.NodeTransformer):
+    """drop docstrings and logger calls, blank the message of every raise"""
+
+    def generic_visit(self, node):
+        node = super().generic_visit(node)
+        for field in ("body", "orelse", "finalbody"):
+            b = getattr(node, field, None)
+            if isinstance(b, list):
+                b = [x for x in b if not is_skippable(x)]
+                setattr(node, field, b or ([ast.Pass()] if field == "body" else []))
+        return node
+
+    def visit_Raise(self, node):
+        if isinstance(node.exc, ast.Call) and isinstance(node.exc.func, ast.Name):
+            return ast.Raise(exc=ast.Call(func=node.exc.func, args=[], keywords=[]), cause=node.cause)
+        return node
+
+
+INTERPRETER_TEXT = {
+    "QInteger.interpret": "return self.value",
+    "QString.interpret": "return self.value",
+    "QVariable.interpret": "if self.name not in namespace:\n    raise QueryInterpretException()\n"
+                           "namespace[self.name] = self.value\nreturn self.value",
+    "QFunction.interpret": "if self.name not in functions:\n    raise QueryInterpretException()\n"
+                           "call_args = [datastore, namespace]\nfor arg in self.args:\n"
+                           "    call_args.append(arg.interpret(datastore, namespace))\n"
+                           "try:\n    result = functions[self.name](*call_args)\nexcept TypeError:\n"
+                           "    raise QueryInterpretException() from None\nreturn result",
+    "QDict.interpret": "expanded_dict = {}\nfor key, value in self.value.items():\n"
+                       "    expanded_dict[key] = value.interpret(datastore, namespace)\nreturn expanded_dict",
+    "QList.interpret": "expanded_list = []\nfor value in self.value:\n"
+                       "    expanded_list.append(value.interpret(datastore, namespace))\nreturn expanded_list",
+    "interpret": "namespace[var.name] = val.interpret(datastore, namespace)",
+    "query": "namespace = create_namespace()\nnamespace['NAME'] = name\nnamespace['STARTTIME'] = starttime.isoformat()\n"
+             "namespace['ENDTIME'] = endtime.isoformat()\nquery_stmts = query.split(';')\n"
+             "for statement in query_stmts:\n    statement = statement.strip()\n    if statement:\n"
+             "        var, val = parse(statement, namespace)\n        interpret(var, val, namespace, datastore)\n"
+             "result = get_return(namespace)\nreturn result",
+}
+INTERPRETER_ARGS = {"interpret": ["var", "val", "namespace", "datastore"],
+                    "query": ["name", "query", "starttime", "endtime", "datastore"]}
+
+
+@_guard
+def tr_interpreter_text(repo):
+    """The interpreter side (the six `interpret` methods, interpret(), query()) is NOT re-translated: its text
+    (docstrings, logger calls and exception messages removed) is compared with the text Model/Query.v's interp /
+    interpret_stmt / run_stmts / run were written against.  Any edit there breaks the tie (also a harmless one)."""
+    mod = Module(repo)
+    for key, want in INTERPRETER_TEXT.items():
+        if "." in key:
+            cls, name = key.split(".")
+            fn = mod.method(cls, name)
+            args = ["self", "datastore", "namespace"]
+        else:
+            fn = mod.function(key)
+            args = INTERPRETER_ARGS[key]
+        if [a.arg for a in fn.args.args] != args or fn.args.vararg or fn.args.kwarg or fn.args.defaults:
+            raise Fail(f"{key}: signature changed")
+        if [d for d in fn.decorator_list]:
+            raise Fail(f"{key}: decorated")
+        body = _Normalise().visit(ast.Module(body=list(fn.body), type_ignores=[]))
+        got = ast.unparse(ast.fix_missing_locations(body))
+        if got != want:
+            raise Fail(f"{key}: the text the model was written against changed: {got!r}")
+    return "(* interpret methods, interpret(), query(): text unchanged *)\nDefinition gen_interpreter_text_ok : bool := true.\n"
+
+
+@_guard
 def tr_footer(repo):
     return "End Gen.\n"
 
@@ -1213,5 +1479,7 @@ KERNELS = {
     + [(f"{c}.check", tr_check(c)) for c in CLASSES]
     + [("qtypes", tr_qtypes), ("_parse_token", tr_parse_token), ("parse_methods", tr_parse_methods),
        ("parse", tr_parse), ("create_namespace", tr_create_namespace), ("get_return", tr_get_return),
+       ("_verify_variable_is_type", tr_verify_type), ("q2_typecheck", tr_typecheck), ("q2_function", tr_q2_function),
+       ("interpreter_text", tr_interpreter_text),
        ("query_footer", tr_footer)],
 }
